@@ -74,7 +74,8 @@ TNext ==
 TSpec == TInit /\ [][TNext]_tvars
 
 \* CONSTRAINT: dead branches are not continued; live ones record how far they got
-Live == ~dead /\ TLCSet(1, IF l > TLCGet(1) THEN l ELSE TLCGet(1))
+\* (once some branch has consumed the whole log the remaining branches are not explored any further)
+Live == ~dead /\ TLCGet(1) <= N /\ TLCSet(1, IF l > TLCGet(1) THEN l ELSE TLCGet(1))
 
 \* POSTCONDITION
 Accepted ==
